@@ -434,4 +434,90 @@ theorem strlit_value_ascii_units (lit us : List Nat) (hasc : ∀ c ∈ lit, c < 
     LitModel.parseStringLiteral lit = some (bytesOfUnits us) := by
   rw [strlit_value_ascii lit us hasc hoct hsv, bytesOfUnits, utf16Decode_oku us hsur]
 
+/-! ### numeric literals -/
+
+theorem digitVal_dec (c : Nat) (h : LitSpec.isDec c = true) : GoStd.digitVal c = some (c - 48) ∧ LitSpec.hexVal c = some (c - 48) ∧ c - 48 < 10 := by
+  have hc : 48 ≤ c ∧ c ≤ 57 := by simpa [LitSpec.isDec] using h
+  refine ⟨?_, ?_, by omega⟩
+  · simp [GoStd.digitVal, GoStd.isDigit, hc]
+  · simp [LitSpec.hexVal, hc]
+
+/-- any step function that behaves like the digit loop of strconv.ParseUint on decimal digits -/
+theorem fold_dec (F : Option (Nat × Bool) → Nat → Option (Nat × Bool)) (ds : List Nat) (acc : Nat)
+    (hF : ∀ acc c, LitSpec.isDec c = true → F (some (acc, false)) c = some (acc * 10 + (c - 48), false))
+    (hd : ∀ c ∈ ds, LitSpec.isDec c = true) :
+    ds.foldl F (some (acc, false)) = some (ds.foldl (fun v c => v * 10 + ((LitSpec.hexVal c).getD 0)) acc, false) := by
+  induction ds generalizing acc with
+  | nil => rfl
+  | cons c r ih =>
+    have hc := digitVal_dec c (hd c (by simp))
+    simp only [List.foldl_cons, hF acc c (hd c (by simp)), hc.2.1, Option.getD_some]
+    exact ih _ (fun x hx => hd x (by simp [hx]))
+
+/-- NUMERIC LITERAL VALUE (decimal integers): for every DecimalIntegerLiteral without leading zero whose mathematical value
+    (§7.8.3 MV) is below 2^63, parseNumberLiteral yields exactly that integer (as the int64 → float64 conversion of it),
+    and MV is what `LitSpec.mv` assigns. -/
+theorem numlit_decimal_int (ds : List Nat) (hne : ds ≠ []) (hd : ∀ c ∈ ds, LitSpec.isDec c = true)
+    (h0 : ds.head? ≠ some 48) (hv : LitSpec.digitsVal 10 ds < 2^63) :
+    LitModel.parseNumberLiteral ds = some (F64.ofInt (LitSpec.digitsVal 10 ds)) := by
+  match ds, hne with
+  | c :: r, _ =>
+    have hc : 48 ≤ c ∧ c ≤ 57 := by simpa [LitSpec.isDec] using hd c (by simp)
+    have hc48 : c ≠ 48 := by intro h; subst h; simp at h0
+    have hplus : ¬ c = GoStd.ch '+' := by simp [GoStd.ch]; omega
+    have hminus : ¬ c = GoStd.ch '-' := by simp [GoStd.ch]; omega
+    have hpi : GoStd.parseInt (c :: r) 0 = .ok (LitSpec.digitsVal 10 (c :: r)) := by
+      have hv64 : ¬ List.foldl (fun v c => v * 10 + (LitSpec.hexVal c).getD 0) 0 (c :: r) ≥ 2^64 := by
+        have : List.foldl (fun v c => v * 10 + (LitSpec.hexVal c).getD 0) 0 (c :: r) = LitSpec.digitsVal 10 (c :: r) := rfl
+        omega
+      have hv63 : ¬ List.foldl (fun v c => v * 10 + (LitSpec.hexVal c).getD 0) 0 (c :: r) ≥ 2^63 := by
+        have : List.foldl (fun v c => v * 10 + (LitSpec.hexVal c).getD 0) 0 (c :: r) = LitSpec.digitsVal 10 (c :: r) := rfl
+        omega
+      have hi : ¬ ((List.foldl (fun v c => v * 10 + (LitSpec.hexVal c).getD 0) 0 (c :: r) : Nat) : Int) ≥ 2 ^ 63 := by
+        intro h; apply hv63; exact_mod_cast h
+      have hcs : c = 49 ∨ c = 50 ∨ c = 51 ∨ c = 52 ∨ c = 53 ∨ c = 54 ∨ c = 55 ∨ c = 56 ∨ c = 57 := by omega
+      unfold GoStd.parseInt GoStd.parseUint
+      rcases hcs with h|h|h|h|h|h|h|h|h <;> subst h <;>
+        (simp only [List.isEmpty_cons, Bool.false_eq_true, if_false, hplus, hminus, if_true]
+         rw [fold_dec]
+         · simp only [Bool.false_eq_true, false_and, if_false, hv64, show ¬ ((10:Nat) < 2 ∨ 10 > 36) by omega]
+           simp [hi, LitSpec.digitsVal]
+           simp only [List.foldl_cons, Nat.zero_mul, Nat.zero_add] at hi
+           omega
+         · intro acc c hc
+           have h1 := digitVal_dec c hc
+           have hne : ¬ c = GoStd.ch '_' := by
+             have : 48 ≤ c ∧ c ≤ 57 := by simpa [LitSpec.isDec] using hc
+             simp [GoStd.ch]; omega
+           have : ¬ c - 48 ≥ 10 := by omega
+           simp [hne, h1.1, this]
+         · exact hd)
+    unfold LitModel.parseNumberLiteral
+    rw [hpi]
+
+
+/-- … and that integer is the MV the specification assigns to the literal -/
+theorem mv_decimal_int (ds : List Nat) (hne : ds ≠ []) (hd : ∀ c ∈ ds, LitSpec.isDec c = true)
+    (h0 : ds.head? ≠ some 48) : LitSpec.mv ds = some (LitSpec.digitsVal 10 ds, 1) := by
+  have htw : ∀ (l : List Nat), (∀ c ∈ l, LitSpec.isDec c = true) → l.takeWhile LitSpec.isDec = l := by
+    intro l
+    induction l with
+    | nil => intro _; rfl
+    | cons x xs ih => intro h; simp [List.takeWhile, h x (by simp), ih (fun y hy => h y (by simp [hy]))]
+  have htw := htw ds hd
+  match ds, hne with
+  | c :: r, _ =>
+    have hc48 : c ≠ 48 := by intro h; subst h; simp at h0
+    have hmv : LitSpec.mv (c :: r) = LitSpec.mv.decimal (c :: r) := by
+      unfold LitSpec.mv
+      split
+      · rename_i heq; simp at heq; exact absurd heq.1 hc48
+      · rfl
+    rw [hmv]
+    unfold LitSpec.mv.decimal
+    simp only [htw, List.drop_length]
+    cases r with
+    | nil => simp [LitSpec.digitsVal]
+    | cons d r' => simp [hc48, LitSpec.digitsVal]
+
 end OttoVerif.C03.LitThm
